@@ -20,10 +20,10 @@ def one(seed):
         res = {}; viols = {}
         cur = None
         for l in out.splitlines():
-            if l.startswith("pegcheck property=") : pass
+            if l.startswith("pegcheck property="): cur = l.split("property=",1)[1].split()[0]
             if l.startswith("  violation: ["):
                 rule = l.split("[",1)[1].split("]",1)[0]
-                viols.setdefault(rule.split("/")[0].split("-")[0], []).append(rule)
+                viols.setdefault(cur or rule.split("/")[0].split("-")[0], []).append(rule)
             if l.startswith("RESULT "):
                 _, pid, ex = l.split(); res[pid] = int(ex.split("=")[1])
         fired = {p: sorted(set(viols.get(p, []))) or ["(exit %d)" % c] for p, c in res.items() if c != 0}
